@@ -5,6 +5,7 @@ package nebula
 import (
 	"bytes"
 	"fmt"
+	"log/slog"
 	"net/netip"
 	"strings"
 	"testing"
@@ -49,6 +50,24 @@ type c39State struct {
 	// answered[i]: host i is harness-controlled and has itself sent CreateRelayResponse messages over
 	// its own tunnel; whatever the relay then forwards to it was negotiated by it
 	answered map[int]bool
+	// everIdx[i]: every relay index host i has ever allocated (observed before each delivery and after
+	// each step); a relay learns a target's index only from that target's answer
+	everIdx map[int]map[uint32]bool
+	// forged[i]: relay indexes the harness announced in host i's name (control messages it sent over
+	// i's own tunnel): the relay legitimately believes they are i's
+	forged map[int]map[uint32]bool
+}
+
+func (c *c39State) announce(i int, idx ...uint32) {
+	if c.forged == nil {
+		c.forged = map[int]map[uint32]bool{}
+	}
+	if c.forged[i] == nil {
+		c.forged[i] = map[uint32]bool{}
+	}
+	for _, x := range idx {
+		c.forged[i][x] = true
+	}
 }
 
 func (c *c39State) observeAgreed(w *nsWorld) {
@@ -63,12 +82,19 @@ func (c *c39State) observeAgreed(w *nsWorld) {
 		if c.agreed[i] == nil {
 			c.agreed[i] = map[netip.Addr]bool{}
 		}
+		if c.everIdx == nil {
+			c.everIdx = map[int]map[uint32]bool{}
+		}
+		if c.everIdx[i] == nil {
+			c.everIdx[i] = map[uint32]bool{}
+		}
 		for _, t := range w.nodes[i].allTunnels() {
 			t.relayState.RLock()
 			for a, r := range t.relayState.relayForByAddr {
 				if r.Type == TerminalType {
 					c.agreed[i][a] = true
 				}
+				c.everIdx[i][r.LocalIndex] = true
 			}
 			t.relayState.RUnlock()
 		}
@@ -171,6 +197,14 @@ func (c *c39State) postDeliver(rt *rapid.T, w *nsWorld, h *nsHist, p *nsPacket, 
 		if !ok {
 			rt.Fatalf("relay %s forwarded traffic received from %s to %s, which never held relay state for %s (third peer): in %v out %v\nagreed[%s]=%v",
 				r.name, w.specs[xi].name, w.specs[yi].name, w.specs[xi].name, in, q, w.specs[yi].name, c.agreed[yi])
+		}
+		// "only once the onward leg is established": the index the relay forwards under is one the target
+		// allocated and told the relay (or one the harness announced in the target's name over the target's
+		// own tunnel). The relay cannot know any other; an index the target never had (0 in particular)
+		// means the relay brought the leg up without the target's answer.
+		if w.specs[yi].kind == nsHonest && !c.everIdx[yi][qh.RemoteIndex] && !c.forged[yi][qh.RemoteIndex] {
+			rt.Fatalf("relay %s forwarded traffic of %s to %s under relay index %d, which %s never allocated: the onward leg was brought up without %s's answer (in %v out %v)",
+				r.name, w.specs[xi].name, w.specs[yi].name, qh.RemoteIndex, w.specs[yi].name, w.specs[yi].name, in, q)
 		}
 		// C15: the relay forwards the inner bytes untouched
 		if len(in.Data) >= header.Len+16 && len(q.Data) >= header.Len+16 {
@@ -336,6 +370,7 @@ func (c *c39State) hostileControl(rt *rapid.T, w *nsWorld, h *nsHist) {
 	}
 	m.ctrl.f.SendMessageToHostInfo(header.Control, 0, hi, b, make([]byte, 12), make([]byte, mtu))
 	w.s.settle()
+	c.announce(mi, msg.InitiatorRelayIndex, msg.ResponderRelayIndex)
 	if msg.Type == NebulaControl_CreateRelayResponse {
 		if c.answered == nil {
 			c.answered = map[int]bool{}
@@ -375,6 +410,7 @@ func (c *c39State) halfOpen(rt *rapid.T, w *nsWorld, h *nsHist) {
 	b, _ := req.Marshal()
 	x.ctrl.f.SendMessageToHostInfo(header.Control, 0, hi, b, make([]byte, 12), make([]byte, mtu))
 	w.s.settle()
+	c.announce(xi, req.InitiatorRelayIndex)
 	// deliver x -> relay, lose whatever the relay sends onward
 	for _, p := range w.s.takeInflight() {
 		if p.Src == x.idx && p.To == r.udpAddr {
@@ -437,6 +473,7 @@ func (c *c39State) halfOpen(rt *rapid.T, w *nsWorld, h *nsHist) {
 				c.answered = map[int]bool{}
 			}
 			c.answered[zi] = true
+			c.announce(zi, resp.InitiatorRelayIndex, resp.ResponderRelayIndex)
 			h.note("%s answers the relay's request to %s in its place (CreateRelayResponse naming relay index %d)", z.name, w.specs[yi].name, jY)
 			vk.Label(w.pidLabel(), "third-host-answers-a-relay-request")
 		}
@@ -459,6 +496,7 @@ func (c *c39State) halfOpen(rt *rapid.T, w *nsWorld, h *nsHist) {
 			b2, _ := req2.Marshal()
 			z.ctrl.f.SendMessageToHostInfo(header.Control, 0, hz, b2, make([]byte, 12), make([]byte, mtu))
 			w.s.settle()
+			c.announce(zi, req2.InitiatorRelayIndex)
 			h.note("%s asks the relay for a relay %s->%s in %s's name", z.name, x.name, w.specs[yi].name, x.name)
 			h.flush(6) // relay -> y request, y -> relay response, relay -> requester response
 			vk.Label(w.pidLabel(), "relay-request-in-another-hosts-name")
@@ -742,4 +780,39 @@ func TestC39_RelayPairs(t *testing.T) {
 func TestC15_RelayOpaque(t *testing.T) {
 	nsSetT(t)
 	vk.Check(t, 500, func(rt *rapid.T) { c39Run(rt, "C15") })
+}
+
+// TestC39_Probe_requested_leg_disestablished is the plain regression test of the recorded finding
+// "requested-leg-disestablished": relay R asked h1 for a relay with h0 and got no answer (Requested,
+// remote index unknown); the tunnel of the other leg (h0) goes away. The entry on h1's tunnel must
+// not become Disestablished, from where a later CreateRelayResponse of h0 would complete it.
+func TestC39_Probe_requested_leg_disestablished(t *testing.T) {
+	l := slog.New(slog.DiscardHandler)
+	hm := newHostMap(l)
+	a0, a1 := netip.MustParseAddr("10.128.0.11"), netip.MustParseAddr("10.128.0.12")
+	mk := func(a netip.Addr, idx uint32) *HostInfo {
+		return &HostInfo{vpnAddrs: []netip.Addr{a}, localIndexId: idx, remoteIndexId: idx + 1000,
+			relayState: RelayState{relayForByAddr: map[netip.Addr]*Relay{}, relayForByIdx: map[uint32]*Relay{}}}
+	}
+	h0, h1 := mk(a0, 1), mk(a1, 2)
+	f := &Interface{hostMap: hm, l: l}
+	hm.Lock()
+	hm.unlockedAddHostInfo(h0, f)
+	hm.unlockedAddHostInfo(h1, f)
+	hm.Unlock()
+	if _, err := AddRelay(l, h1, hm, a0, nil, ForwardingType, Requested); err != nil {
+		t.Fatal(err)
+	}
+	ri := uint32(0x51515151)
+	if _, err := AddRelay(l, h0, hm, a1, &ri, ForwardingType, PeerRequested); err != nil {
+		t.Fatal(err)
+	}
+	hm.DeleteHostInfo(h0)
+	r, ok := h1.relayState.QueryRelayForByIp(a0)
+	if !ok {
+		t.Fatalf("the entry on the other leg vanished")
+	}
+	if r.State != Requested {
+		t.Fatalf("C39: a relay leg that was requested and never answered (remote index %d) moved to state %d when the other leg's tunnel went away; a later response on the other leg would establish it without the peer's answer", r.RemoteIndex, r.State)
+	}
 }
